@@ -17,9 +17,15 @@ Verdict(o) ==
               /\ CASE e.k = "any" -> TRUE
                    [] e.k = "cerr" -> o.out.k = "cerr"
                    [] OTHER -> o.out.k = "ok" /\ Len(o.out.items) = Len(e.items) /\ \A j \in 1..Len(e.items) : ItemOk(c, o.out.items[j], e.items[j])
+      \* the same test on the element handed in as %x (the choice wrapper itself where there is one)
+      envGood == Has(o, "envout") =>
+                   (/\ ~IsFailure(o.envout)
+                    /\ CASE e.k = "any" -> TRUE
+                         [] e.k = "cerr" -> o.envout.k = "cerr"
+                         [] OTHER -> o.envout.k = "ok" /\ Len(o.envout.items) = Len(e.items) /\ \A j \in 1..Len(e.items) : ItemOk(c, o.envout.items[j], e.items[j]))
       subj == IF c.kind = "el" THEN NodeOf(c).pn \o ":" \o NodeOf(c).ty ELSE "System." \o SystemNameOf(ValuePool[c.lit].v)
-  IN [id |-> o.id, ok |-> good,
-      sig |-> IF good THEN "" ELSE "type|" \o c.op \o "|" \o subj \o "|" \o TypeText(c.ns, c.name) \o "|got-" \o KindOf2(o.out)
+  IN [id |-> o.id, ok |-> good /\ envGood,
+      sig |-> IF good /\ envGood THEN "" ELSE IF good THEN "type|" \o c.op \o "|env|" \o subj \o "|" \o TypeText(c.ns, c.name) \o "|got-" \o KindOf2(o.envout) ELSE "type|" \o c.op \o "|" \o subj \o "|" \o TypeText(c.ns, c.name) \o "|got-" \o KindOf2(o.out)
                                   \o "|want-" \o (IF e.k = "ok" THEN (IF Len(e.items) = 0 THEN "empty" ELSE IF e.items[1].t = "b" THEN (IF e.items[1].b THEN "true" ELSE "false") ELSE "item") ELSE e.k),
       want |-> e]
 
